@@ -710,3 +710,100 @@ def run_entry(arg: dict) -> dict:
         with open(outname, "rb") as fh:
             res["out"] = list(fh.read())
     return res
+
+
+# ------------------------------------------------------------------------------------------
+# progress (C15)
+# ------------------------------------------------------------------------------------------
+class BudgetExceeded(BaseException):
+    pass
+
+
+def progress_run(arg: dict) -> dict:
+    """Scan and parse arg['text'] with operation-counting subclasses of the public Scanner / Parser
+    (deterministic step budget), then assemble it for real (the pool's watchdog is the backstop)."""
+    from a816.parse.parser import Parser
+    from a816.parse.parser_states import parse_initial
+    from a816.parse.scanner import Scanner
+    from a816.parse.scanner_states import lex_initial
+    text = arg["text"]
+    n = len(text)
+    sbudget = arg["scan_budget"]
+    obs = {"len": n, "tokens": 0, "scan_ops": 0, "parse_ops": 0, "stalled_calls": 0, "calls": 0, "budget_hit": False,
+           "hang": False, "outcome": "error"}
+
+    class CScanner(Scanner):
+        ops = 0
+
+        def _tick(self):
+            self.ops += 1
+            if self.ops > sbudget:
+                raise BudgetExceeded()
+
+        def next(self):
+            self._tick()
+            return super().next()
+
+        def peek(self, k=0):
+            self._tick()
+            return super().peek(k)
+
+        def accept_prefix(self, prefix):
+            self._tick()
+            return super().accept_prefix(prefix)
+
+    def state(s):
+        obs["calls"] += 1
+        s._tick()
+        before = (s.pos, len(s.tokens))
+        lex_initial(s)
+        if (s.pos, len(s.tokens)) == before:
+            obs["stalled_calls"] += 1
+
+    sc = CScanner(state)
+    tokens = None
+    try:
+        tokens = sc.scan("progress.s", text)
+    except BudgetExceeded:
+        obs["budget_hit"] = True
+    except BaseException:  # noqa: BLE001 - a reported error is a fine way to terminate
+        pass
+    obs["scan_ops"] = sc.ops
+    if tokens is not None:
+        obs["tokens"] = len(tokens)
+        pbudget = arg["parse_budget_base"] + 40 * (len(tokens) + 2) ** 2
+
+        class CParser(Parser):
+            ops = 0
+
+            def _tick(self):
+                self.ops += 1
+                if self.ops > pbudget:
+                    raise BudgetExceeded()
+
+            def current(self):
+                self._tick()
+                return super().current()
+
+            def next(self):
+                self._tick()
+                return super().next()
+
+            def peek(self):
+                self._tick()
+                return super().peek()
+
+        pr = CParser(tokens, parse_initial)
+        try:
+            write_files({})
+            sys.stdout = open(os.devnull, "w")
+            pr.parse()
+        except BudgetExceeded:
+            obs["budget_hit"] = True
+        except BaseException:  # noqa: BLE001
+            pass
+        obs["parse_ops"] = pr.ops
+    if not obs["budget_hit"]:
+        o = assemble({"src": text})
+        obs["outcome"] = "ok" if o["ok"] else "error"
+    return obs
